@@ -68,6 +68,23 @@ def fileText (chans : List ChanF) (S : List Str) (red : Reduction) (w d n : Nat)
     headLine w (sel.map (fun p => (p.2, p.1.ch.ident))) ++ ['\n'] ++
     ((List.range n).map (fun f => rowLine w (rowCols sel red d f) ++ ['\n'])).flatten
 
+/-- one call of the writer: everything but the frame array -/
+structure WriteReq where
+  S : List Str
+  red : Reduction
+  w : Nat
+  d : Nat
+  n : Nat
+  cmts : List Str
+
+def writeOne (chans : List ChanF) (r : WriteReq) : Str := fileText chans r.S r.red r.w r.d r.n r.cmts
+
+/-- A sequence of writes of ONE frame array: the texts written, and the frame array afterwards.  In the model the frame
+array is an argument and never a result (the writer only reads it) and there is no other state: this is what the harness
+checks on the implementation by snapshotting the caller's arrays around every write and by write histories. -/
+def writeSession (chans : List ChanF) (reqs : List WriteReq) : List Str × List ChanF :=
+  (reqs.map (writeOne chans), chans)
+
 /-! ### the same text as an instance of the C09 printer -/
 
 /-- the decimal read back from a printed cell: `roundHalfEven(v·10^d)·10^-d`, an integer for the `d` format -/
